@@ -312,6 +312,10 @@ func (d *dialer) peer(c net.Conn, cid int) {
 			send(fmt.Sprintf("HTTP/1.1 200 OK\r\nConnection: keep-alive\r\n\r\n%s", body))
 			d.log.add("peer-close", cid, id, plan)
 			return
+		case "okclosechunked": // announced close on a chunked response that ends properly
+			send(fmt.Sprintf("HTTP/1.1 200 OK\r\nConnection: close\r\nTransfer-Encoding: chunked\r\n\r\n%x\r\n%s\r\n0\r\n\r\n", len(body), body))
+			d.log.add("peer-close", cid, id, plan)
+			return
 		case "okclose":
 			send(fmt.Sprintf("HTTP/1.1 200 OK\r\nConnection: close\r\nContent-Length: %d\r\n\r\n%s", len(body), body))
 			d.log.add("peer-close", cid, id, plan)
@@ -376,7 +380,7 @@ func installYield() {
 
 // ---- one run ----------------------------------------------------------------------
 
-var plans = []string{"ok", "ok", "ok", "ok", "bigok", "bigstall", "bigmidbody", "okclosespelled", "chunkcut", "chunkcuttrailer", "nolengthkeepalive", "okchunked", "okclose", "closebefore", "midheader", "midbody", "stall", "okthenclose"}
+var plans = []string{"ok", "ok", "ok", "ok", "bigok", "bigstall", "bigmidbody", "okclosespelled", "chunkcut", "chunkcuttrailer", "nolengthkeepalive", "okchunked", "okclose", "okclosechunked", "closebefore", "midheader", "midbody", "stall", "okthenclose"}
 
 type doRec struct {
 	reqTimeout       time.Duration
@@ -642,7 +646,7 @@ func oneRun(w *mon.W, c *mon.Case) {
 					fail("matching", "Do(%s, plan %s) succeeded with the response body %q, which answers another request", rec.id, rec.plan, rec.body)
 					return
 				}
-				if rec.plan != "ok" && rec.plan != "bigok" && rec.plan != "okchunked" && rec.plan != "okclose" && rec.plan != "okclosespelled" && rec.plan != "okthenclose" && rec.plan != "chunkcut" && rec.plan != "chunkcuttrailer" && rec.plan != "nolengthkeepalive" {
+				if rec.plan != "ok" && rec.plan != "bigok" && rec.plan != "okchunked" && rec.plan != "okclose" && rec.plan != "okclosechunked" && rec.plan != "okclosespelled" && rec.plan != "okthenclose" && rec.plan != "chunkcut" && rec.plan != "chunkcuttrailer" && rec.plan != "nolengthkeepalive" {
 					// (a chunked response cut in its last line or trailer, and a body that
 					// ends with the connection, may be handed out: their bytes are all there)
 					fail("matching", "Do(%s) succeeded although the peer's plan was %s", rec.id, rec.plan)
